@@ -32,6 +32,8 @@ pub trait Coll {
     fn len(&self) -> Option<usize> { None }
     fn iter_mut(&mut self) -> Option<Vec<(usize, Item)>> { None }
     fn find(&self, _it: &Item) -> Option<Option<usize>> { None }
+    /// does `get_mut` resolve the identifier (Some(true)) or report its absence by panicking (Some(false))?
+    fn get_mut_resolves(&mut self, _id: usize) -> Option<bool> { None }
 }
 
 // ---- ModuleTypes (ArenaSet) ----
@@ -65,6 +67,7 @@ impl Coll for Types {
     fn get(&self, id: usize) -> Item { enc_type(self.m.types.get(self.ids[id])) }
     fn iter(&self) -> Vec<(usize, Item)> { self.m.types.iter().map(|t| (t.id().index(), enc_type(t))).collect() }
     fn find(&self, it: &Item) -> Option<Option<usize>> { let (p, q) = dec_type(it); Some(self.m.types.find(&p, &q).map(|i| i.index())) }
+    fn get_mut_resolves(&mut self, id: usize) -> Option<bool> { let i = *self.ids.get(id)?; Some(crate::util::catch(|| { let _ = self.m.types.get_mut(i); }).is_some()) }
 }
 
 // ---- generic helper for the plain TombstoneArena collections ----
@@ -88,6 +91,7 @@ macro_rules! plain_coll {
                 let f: fn(&Module, $idty, &Aux) -> Item = $enc;
                 self.m.$field.iter().map(|x| (x.id().index(), f(&self.m, x.id(), &self.aux))).collect()
             }
+            fn get_mut_resolves(&mut self, id: usize) -> Option<bool> { let i = *self.ids.get(id)?; Some(crate::util::catch(|| { let _ = self.m.$field.get_mut(i); }).is_some()) }
             $( fn len(&self) -> Option<usize> { let f: fn(&Module) -> usize = $len; Some(f(&self.m)) } )?
             $( fn iter_mut(&mut self) -> Option<Vec<(usize, Item)>> { let _marker: bool = $itermut; let ids: Vec<$idty> = self.m.$field.iter_mut().map(|x| x.id()).collect(); let f: fn(&Module, $idty, &Aux) -> Item = $enc; Some(ids.into_iter().map(|id| (id.index(), crate::util::catch(|| f(&self.m, id, &self.aux)).unwrap_or_else(|| vec![999_999]))).collect()) } )?
         }
@@ -214,7 +218,9 @@ pub fn run_history(kind: u64, ops: &[Op]) -> Vec<Out> {
         let o = match op {
             Op::Alloc(it) => Out::Id(c.add(it)),
             Op::Delete(id) => match catch(|| c.delete(*id)) { Some(()) => Out::Unit, None => Out::Panic },
-            Op::Get(id) => match catch(|| c.get(*id)) { Some(it) => Out::Opt(it), None => Out::Panic },
+            Op::Get(id) => { let o = match catch(|| c.get(*id)) { Some(it) => Out::Opt(it), None => Out::Panic };
+                // the mutable accessor must agree with the shared one on whether the identifier denotes anything
+                match c.get_mut_resolves(*id) { Some(r) if r != (o != Out::Panic) => Out::Opt(vec![888_888, r as u64]), _ => o } },
             Op::Iter => Out::List(c.iter()),
             Op::Len => Out::Len(c.len().unwrap()),
             Op::Find(it) => Out::Find(c.find(it).unwrap()),
@@ -276,7 +282,7 @@ pub fn oracle(kind: u64, ops: &[Op], outs: &[Out]) -> Option<String> {
                 else if *o != Out::Panic { return Some(format!("step {}: deleting absent id {} did not report absence", n, id)); } }
             (Op::Get(id), o) => { match items.get(*id) {
                 Some((v, true)) => if *o != Out::Opt(v.clone()) { return Some(format!("step {}: id {} no longer denotes its item", n, id)); },
-                _ => if *o != Out::Panic { return Some(format!("step {}: dead id {} resolved to {:?}", n, id, o)); } } }
+                _ => if *o != Out::Panic { return Some(if matches!(o, Out::Opt(x) if x.first() == Some(&888_888)) { format!("step {}: get_mut resolves the deleted id {} although get reports its absence", n, id) } else { format!("step {}: dead id {} resolved to {:?}", n, id, o) }); } } }
             (Op::Iter, Out::List(l)) | (Op::IterMut, Out::List(l)) => if *l != live { return Some(format!("step {}: iteration is not the live items in creation order", n)); },
             (Op::Len, Out::Len(k)) => if *k != live.len() { return Some(format!("step {}: len {} != live {}", n, k, live.len())); },
             (Op::Find(it), Out::Find(f)) => { let e = live.iter().find(|(_, x)| x == it).map(|(i, _)| *i); if *f != e { return Some(format!("step {}: find returned {:?}, expected {:?}", n, f, e)); } }
